@@ -572,4 +572,4 @@ PROP = Prop(
                  "'>100' and 'at least 100')"],
 )
 
-RULE_EXTRA = ('a ratio set on configurations that are documented not to use it; under one seed the values sampled for one class do not change when the other class is rescaled (incl. smoothing); the dynamic switch SINGLE_PASS_SAMPLE_THRESHOLD re-assigned at run time (5/20/110/1000) as its documentation allows; custom samplers as function / lambda / partial / bound method / callable object / (unhashable) dataclass instance; uint8/uint16/int8/float32/bool sources; sources with few scored and up to 600 easy samples per class. Sources with a class present through easy samples only (replacement); clause tiny_classes: 600 draws each from sources with 1-3 scored samples per class.')
+RULE_EXTRA = ('a ratio set on configurations that are documented not to use it; under one seed the values sampled for one class do not change when the other class is rescaled (incl. smoothing); the dynamic switch SINGLE_PASS_SAMPLE_THRESHOLD re-assigned at run time (5/20/110/1000) as its documentation allows; custom samplers as function / lambda / partial / bound method / callable object / (unhashable) dataclass instance; uint8/uint16/int8/float32/bool sources; sources with few scored and up to 600 easy samples per class. Sources with a class present through easy samples only (replacement); clause tiny_classes: 600 draws each from sources with 1-3 scored samples per class. dynamic on sources with an empty class; the same object asked again with smoothing toggled, against a fresh equal object.')
